@@ -117,6 +117,13 @@ func runC11(c *Ctx) {
 	} else {
 		gfmModelCases(c, items, 50000)
 	}
+	if c.Quick() {
+		typoDefModelCases(c, items, 4000)
+		footnoteModelCases(c, items, 2000)
+	} else {
+		typoDefModelCases(c, items, 40000)
+		footnoteModelCases(c, items, 20000)
+	}
 	c11Pairwise(c, items)
 	lawSweepAll(c, cfgs, items, "extension-conservativity", func(d []byte) bool { return true }, func(m mdT, all []mdT, d []byte) (string, bool) {
 		if m.cf.Ext != "core" {
